@@ -413,6 +413,16 @@ Proof.
   rewrite orb_true_r, (Hns vaf). change (is_escape esc) with true. cbn [state_arg rbind]. reflexivity.
 Qed.
 
+Lemma loop_escape_pos c i a rest pos vaf st : no_sub c esc -> find_arg c i = Some a -> a_hyphen a = false ->
+  parse_loop c (esc :: rest) (mkL (PSPos i) pos vaf false) st =
+  parse_loop c rest (mkL (PSPos i) pos vaf true) (st <| mt := start_trailing (mt st) |>).
+Proof.
+  intros Hns Hf Hh. cbn [parse_loop l_trailing l_pst l_vaf l_pos].
+  replace (if is_set s_sub_precedence c || false then possible_subcommand c esc vaf else None) with (@None bytes)
+    by (destruct (is_set s_sub_precedence c); cbn [orb]; [rewrite (Hns vaf)|]; reflexivity).
+  change (is_escape esc) with true. cbn [state_arg]. rewrite Hf. cbn [expect rbind]. rewrite Hh. reflexivity.
+Qed.
+
 (** in a loop state with `--` seen, whatever the tokens: the loop ends ([LDone]), fails, or — only
     in a command that allows external subcommands — starts an external subcommand; it never selects a
     subcommand of the tree and never the help subcommand *)
@@ -610,6 +620,10 @@ Inductive wline : cmd -> bool -> list bytes -> list bytes -> option (list bytes)
 | wl_escape c b pre F pos tail :
     wprefix c b pre F PSValuesDone pos -> no_sub c esc -> is_set s_allow_external c = false ->
     wline c b (pre ++ esc :: tail) [] None
+| wl_escape_multi c b pre F i pos a tail :     (* `--` behind the values of a multi-valued positional *)
+    wprefix c b pre F (PSPos i) pos -> find_arg c i = Some a -> a_hyphen a = false ->
+    no_sub c esc -> is_set s_allow_external c = false ->
+    wline c b (pre ++ esc :: tail) [] None
 | wl_sub c b pre F pst pos tok n keep sc0 sc rest names ext :
     lvl_ok c -> wprefix c b pre F pst pos -> wsel c b pst pos tok n keep -> find_subcommand c n = Some sc0 ->
     build_subcommand c (c_name sc0) = Some sc ->
@@ -652,6 +666,7 @@ Theorem chain_of_wline : forall c b toks names ext, wline c b toks names ext ->
   end.
 Proof.
   induction 1 as [c b pre F pst pos Hp|c b pre F pos tail Hp Hesc Hnoext
+                 |c b pre F i pos a tail Hp Hfa Hhy Hesc Hnoext
                  |c b pre F pst pos tok n keep sc0 sc rest names ext [Hneg Hign] Hp Hsel Hfind Hbuild Hline IH
                  |c b pre F pos tok rest Hp Hext];
     intros f st0 st [Hsub0 [Hsk0 Hat0]] H; (destruct f as [|f]; [discriminate|]);
@@ -666,6 +681,15 @@ Proof.
     destruct (F st0) as [st'|e s1|x]; cbn [rbind] in Hlr; try discriminate.
     change (mkL PSValuesDone pos (negb (is_nil pre)) false) with (lsV pos (negb (is_nil pre))) in Hlr.
     rewrite (loop_escape c tail pos _ st' Hesc) in Hlr.
+    match type of Hlr with ?L = _ =>
+      assert (Hnd : holds (no_dispatch c) (fun _ => True) L) by (apply trailing_no_dispatch; reflexivity) end.
+    rewrite Hlr in Hnd. cbn [holds] in Hnd.
+    destruct lr as [st1|? ? ? ? ?|? ? ?|? ?]; cbn [no_dispatch] in Hnd; try contradiction; [|congruence].
+    cbn [lr_st] in Hk. split; [|exact I]. unfold into_inner. rewrite Hm, Hk, Hsub0. reflexivity.
+  - pose proof (loop_keeps_sub c (pre ++ esc :: tail) (lsV 1 false) st0) as Hk. rewrite Hlr in Hk. cbn [holds] in Hk.
+    rewrite (loop_wprefix c b pre F (PSPos i) pos Hp (esc :: tail) st0 Hsk0) in Hlr.
+    destruct (F st0) as [st'|e s1|x]; cbn [rbind] in Hlr; try discriminate.
+    rewrite (loop_escape_pos c i a tail pos _ st' Hesc Hfa Hhy) in Hlr.
     match type of Hlr with ?L = _ =>
       assert (Hnd : holds (no_dispatch c) (fun _ => True) L) by (apply trailing_no_dispatch; reflexivity) end.
     rewrite Hlr in Hnd. cbn [holds] in Hnd.
@@ -833,14 +857,64 @@ Proof.
   vmr.
 Qed.
 
+(** `a b -- sync`: `--` behind the values of <files>... *)
+Example ex_wide_escape_multi :
+  wline (build_self (ex_wide true)) false [b1 97; b1 98; esc; w_sync] [] None.
+Proof.
+  eapply (wl_escape_multi _ false [b1 97; b1 98] _ _ 2 _ [w_sync]).
+  - apply wp_plain. eapply (wb_multi _ [b1 97] _ 2 _ (b1 98) []).
+    + eapply (pi_pos _ 1 (b1 97) _ []); [solve_nosub|solve_plain|solve_takes|vmr|apply pi_nil].
+    + refine (conj _ (conj _ (conj _ _))); cycle 3.
+      * repeat (apply Forall_cons; [split; [solve_plain|solve_takes]|]). apply Forall_nil.
+      * vmr.
+      * solve_nosub.
+      * intros _; apply Forall_nil.
+  - vmr.
+  - vmr.
+  - solve_nosub.
+  - vmr.
+Qed.
+
+(** the setting is read from the level the positional belongs to: [ex_wide false] with the setting on the
+    CHILD `sync` only still swallows `sync`; [ex_wide true] (setting on the root only) dispatches *)
+Definition ex_wide_child_prec : cmd :=
+  (ex_wide false) <| c_subs := [ (cmd_new w_sync) <| c_args := [ex_flag 121 121] |>
+                                   <| c_set := settings_none <| s_sub_precedence := true |> |>;
+                                 (cmd_new w_status);
+                                 (cmd_new w_remove) <| c_aliases := [(w_delete, true)] |> ] |>.
+
 Definition sh_chain (o : outcome) : option (list bytes) := match o with OOk m => Some (chain m) | _ => None end.
 Example ex_wide_parses :
   sh_chain (do_parse (ex_wide false) [[45; 118]; b1 97; [115; 121]; [45; 121]]) = Some [w_sync] /\
   sh_chain (do_parse (ex_wide false) [b1 97; b1 98; w_sync; b1 99]) = Some [] /\
   sh_chain (do_parse (ex_wide true) [b1 97; b1 98; w_sync; [45; 121]]) = Some [w_sync] /\
   sh_chain (do_parse (ex_wide false) [b1 97; esc; w_sync]) = Some [] /\
-  sh_chain (do_parse (ex_wide false) [[100; 101; 108]]) = Some [w_remove].
+  sh_chain (do_parse (ex_wide false) [[100; 101; 108]]) = Some [w_remove] /\
+  sh_chain (do_parse (ex_wide true) [b1 97; b1 98; esc; w_sync]) = Some [] /\
+  sh_chain (do_parse ex_wide_child_prec [b1 97; b1 98; w_sync; b1 99]) = Some [].
 Proof. vm_compute. repeat split; reflexivity. Qed.
+
+(** long flag-subcommands under [infer_subcommands] are already in the class ([sel_long] takes what
+    [possible_long_flag_subcommand] returns — the canonical name, inference included): `--sy` for `--syncf` *)
+Definition ex_lf : cmd :=
+  (cmd_new (b1 112)) <| c_set := settings_none <| s_infer_sub := true |> |>
+    <| c_gset := settings_none <| s_infer_sub := true |> |>
+    <| c_subs := [ (cmd_new w_sync) <| c_long_flag := Some [115; 121; 110; 99; 102] |>;
+                   (cmd_new w_status) <| c_long_flag := Some [115; 116; 97; 116; 102] |> ] |>.
+Example ex_long_flag_prefix :
+  exists names, wline (build_self ex_lf) false [dd [115; 121]] names None /\ names = [w_sync] /\
+    sh_chain (do_parse ex_lf [dd [115; 121]]) = Some [w_sync].
+Proof.
+  eexists. split.
+  { eapply (wl_sub _ false [] _ PSValuesDone 1 (dd [115; 121]) _ false _ _ [] [] None).
+    - split; vmr.
+    - apply wp_plain, wb_plain, pi_nil.
+    - apply ws_sel. eapply sel_long; [solve_nosub|vmr|vmr|vmr|vmr].
+    - vmr.
+    - vmr.
+    - cbv iota. eapply wl_end. apply wp_plain, wb_plain, pi_nil. }
+  split; vmr.
+Qed.
 
 (** `s` is a prefix of `sync` and of `status`: rejected (command without positionals) *)
 Definition ex_amb : cmd :=
@@ -989,11 +1063,13 @@ Theorem wline_globals_used : forall c b toks names ext, wline c b toks names ext
   mem_id (a_id a) (used_global_args k (build_recursive f x) (into_inner (mt st))) = true.
 Proof.
   induction 1 as [c b pre F pst pos Hp|c b pre F pos tail Hp Hesc Hnoext
+                 |c b pre F i pos a0 tail Hp Hfa Hhy Hesc Hnoext
                  |c b pre F pst pos tok n keep sc0 sc rest names ext Hlvl Hp Hsel Hfind Hbuild Hline IH
                  |c b pre F pos tok rest Hp Hext];
     intros f st0 st x v w k Hstart H Hc Hva Hk lc a Hlc Ha Hg;
     (destruct f as [|f]; [discriminate|]);
     (destruct k as [|k]; [exfalso; unfold into_inner in Hk; destruct (mt_sub (mt st)) as [[? ?]|]; cbn [matches_depth] in Hk; lia|]).
+  - cbn [real_names lazy_cmds] in Hlc. destruct Hlc as [<-|[]]. exact (root_used x v w f k _ c a Hc Ha Hg).
   - cbn [real_names lazy_cmds] in Hlc. destruct Hlc as [<-|[]]. exact (root_used x v w f k _ c a Hc Ha Hg).
   - cbn [real_names lazy_cmds] in Hlc. destruct Hlc as [<-|[]]. exact (root_used x v w f k _ c a Hc Ha Hg).
   - rewrite (wreal_names_cons _ _ _ _ _ _ Hline) in Hlc. cbn [lazy_cmds] in Hlc. rewrite Hbuild in Hlc.
